@@ -203,6 +203,7 @@ def exception_constants():
         else:
             raise Derivation("exceptions.py: from_dict argument shape")
     out["from_dict"] = mapping
+    out["bases"] = {c.name: [ast.unparse(b) for b in c.bases] for c in classes.values()}
     return out
 
 
@@ -312,6 +313,13 @@ def check_c12(run, mc):
             problems.append(f"HttpError.__str__ {ex['http_text']}, model {m['texts'][0]!r} + status")
         if ex["invalid_text"] != m["texts"][1] or ex["multi_sep"] != m["texts"][2] or ex["error_str"] != "self.message":
             problems.append(f"texts: source {ex['invalid_text']!r}, {ex['multi_sep']!r}, {ex['error_str']}; model {m['texts'][1:]}")
+        # the documented outcomes are disjoint classes: each derives from the base exception only
+        for cn in ("GraphQLClientHttpError", "GraphQLClientInvalidResponseError", "GraphQLClientGraphQLMultiError",
+                   "GraphQLClientGraphQLError"):
+            if ex["bases"].get(cn) != ["GraphQLClientError"]:
+                problems.append(f"exceptions.py: bases of {cn} are {ex['bases'].get(cn)}, documented hierarchy: [GraphQLClientError]")
+        if ex["bases"].get("GraphQLClientError") != ["Exception"]:
+            problems.append(f"exceptions.py: bases of GraphQLClientError are {ex['bases'].get('GraphQLClientError')}")
         probe = m["error_probe"][0]   # message, locations, path, extensions, original
         fd = ex["from_dict"]
         if fd != {"message": ("index", "message"), "locations": ("get", "locations"), "path": ("get", "path"),
